@@ -47,6 +47,7 @@ def world_cfg(case):
     return {"peers": peers, "apps": [app], "default_dial": "inprogress",
             "node_timers": {"idle": 5000, "dwa": 5000, "cer": 5000, "cea": 5000, "wakeup": case.get("wakeup", 2)},
             "sched_seed": case.get("seed", 0), "yield_all": case.get("yield_all", False),
+            "extra_listen": case.get("extra_listen", 0),
             "policy": "random" if case.get("seed", 0) % 2 else "fifo"}
 
 
@@ -240,7 +241,7 @@ def evaluate(case) -> Result:
             res.v(f"C18/thread-died/{sig}", d)
         res.nontrivial = (any(not r for r in ready_at_stop) or bool(newcomers) or
                           any(cs.get("reaction") != "prompt" for cs in case["conns"]))
-        res.classes += [f"nconns:{len(conns)}", f"force:{force}", f"newcomers:{min(len(newcomers), 2)}",
+        res.classes += [f"listeners:{1 + case.get('extra_listen', 0)}", f"nconns:{len(conns)}", f"force:{force}", f"newcomers:{min(len(newcomers), 2)}",
                         f"app:{case.get('app_kind', 'basic')}", f"reconnect-inside:{bool(case.get('reconnect_inside'))}"]
         for cs in case["conns"]:
             res.classes += [f"state:{cs['state']}", f"reaction:{cs.get('reaction')}"]
@@ -273,6 +274,10 @@ def shard_main(shard, nshards, tier, scale):
                              "wakeup": 2, "newcomers": [], "seed": seed, "yield_all": ya})
     jobs.append({"conns": [], "force": False, "wait": 3, "wakeup": 2, "newcomers": [[0, True]]})
     jobs.append({"conns": [], "force": True, "wait": 3, "wakeup": 1, "newcomers": []})
+    for extra in (1, 2, 3):
+        for force in (False, True):
+            jobs.append({"conns": [{"state": "ready", "reaction": "prompt"}], "force": force, "wait": 4, "wakeup": 2,
+                         "newcomers": [], "extra_listen": extra})
     if shard == 0:
         rec.extra["grid_jobs"] = len(jobs)
     for case in jobs[shard::nshards]:
@@ -292,7 +297,8 @@ def shard_main(shard, nshards, tier, scale):
                 "reconnect_inside": draw(st.booleans()), "reconnect_wait": draw(st.integers(1, 6)),
                 "pre_gap": draw(st.integers(0, 3)), "blocked_sender": draw(st.booleans()),
                 "app_kind": draw(st.sampled_from(["basic", "threading"])),
-                "seed": draw(st.integers(0, 7)), "yield_all": draw(st.booleans())}
+                "seed": draw(st.integers(0, 7)), "yield_all": draw(st.booleans()),
+                "extra_listen": draw(st.sampled_from([0, 0, 1, 2, 3]))}
 
     def body(case):
         res = evaluate(case)
@@ -308,7 +314,7 @@ def run(tier, scale=1.0):
     for d in hyp.pool_run(shard_main, (tier, scale)):
         rec.merge(d)
     required = {f"state:{s}": 1 for s in set(STATES)} | {f"reaction:{r}": 1 for r in REACTIONS} | \
-               {"simultaneous-dpas": 1, "second-connection-of-a-peer": 1, "force:True": 1, "newcomers:2": 1, "nconns:3": 1, "reconnect-inside:True": 1, "app:threading": 1}
+               {"listeners:2": 1, "listeners:4": 1, "simultaneous-dpas": 1, "second-connection-of-a-peer": 1, "force:True": 1, "newcomers:2": 1, "nconns:3": 1, "reconnect-inside:True": 1, "app:threading": 1}
     return finish(rec, tier=tier, level="exploration", rule=RULE, assumptions=ASSUME, t0=t0,
                   required_classes=required)
 
